@@ -1,12 +1,13 @@
 #!/bin/bash
-# usage: mkseed.sh <PID> <tag> "<focus>"   -> creates /tmp/seed_<PID>_<tag> worktree + prompt file
+# usage: mkseed.sh <PID> <tag> "<focus>" ["<ideas already used, to avoid>"]   -> creates /tmp/seed_<PID>_<tag> worktree + prompt file
 set -e
-PID=$1; TAG=$2; FOCUS=$3
+PID=$1; TAG=$2; FOCUS=$3; AVOID=${4:-}
 WT=/tmp/seed_${PID}_${TAG}
 git -C /repo worktree add -q $WT HEAD
-python3 - $WT $PID "$FOCUS" <<'PY'
+python3 - $WT $PID "$FOCUS" "$AVOID" <<'PY'
 import sys, json
-wt, pid, focus = sys.argv[1:4]
+wt, pid, focus, avoid = sys.argv[1:5]
+avoid = ('Other people have already produced the following changes; yours must be a DIFFERENT idea in a different place: ' + avoid) if avoid else ''
 s = open('/verif/harness/compat/__init__.py').read()
 s = s.replace('''    import os
     repo = os.environ.get("VERIF_REPO", "/repo").rstrip("/") + "/"
@@ -21,6 +22,6 @@ p = props[pid]
 t = open('/verif/notes/SEED_PROMPT.txt').read()
 open('/tmp/seed_prompt_%s_%s.txt' % (pid, wt.rsplit('_', 1)[1]), 'w').write(t.format(
     WT=wt, PID=pid, TITLE=p['title'], STATEMENT=p['statement'], QUANT=p['quantifier']['text'],
-    FILES=", ".join(p['anchors']['files']), FOCUS=focus))
+    FILES=", ".join(p['anchors']['files']), FOCUS=focus, AVOID=avoid))
 PY
 echo "$WT ready; prompt /tmp/seed_prompt_${PID}_${TAG}.txt"
